@@ -176,6 +176,13 @@ BENIGN = [
     ('C18', 'end-of-input-dedents-carry-no-position', [R('lark/indenter.py', "            yield Token.new_borrow_pos(self.DEDENT_type, '', token) if token else Token(self.DEDENT_type, '', 0, 0, 0, 0, 0, 0)", "            yield Token(self.DEDENT_type, '<dedent>')")]),
     ('C13', 'copy-always-deep-copies-the-value-stack', [R('lark/parsers/lalr_parser_state.py', 'deepcopy(self.value_stack) if deepcopy_values else copy(self.value_stack)', 'deepcopy(self.value_stack)')]),
     ('C11', 'save-uses-pickle-protocol-2', [R('lark/lark.py', "pickle.dump({'data': data, 'memo': m}, f, protocol=pickle.HIGHEST_PROTOCOL)", "pickle.dump({'data': data, 'memo': m}, f, protocol=2)")]),
+    ('C13', 'choices-returns-a-copy-of-the-table-row', [R('lark/parsers/lalr_interactive_parser.py', "        return self.parser_state.parse_conf.parse_table.states[self.parser_state.position]", "        return dict(self.parser_state.parse_conf.parse_table.states[self.parser_state.position])")]),
+    ('C13', 'accepts-tries-the-terminals-in-sorted-order', [R('lark/parsers/lalr_interactive_parser.py', "        for t in self.choices():\n", "        for t in sorted(self.choices()):\n")]),
+    ('C10', 'choices-returns-a-copy-of-the-table-row', [R('lark/parsers/lalr_interactive_parser.py', "        return self.parser_state.parse_conf.parse_table.states[self.parser_state.position]", "        return dict(self.parser_state.parse_conf.parse_table.states[self.parser_state.position])")]),
+    ('C12', 'digest-of-bytes-built-in-two-updates', [R('lark/load_grammar.py', "        return hashlib.sha256(data, usedforsecurity=False).hexdigest()", "        h_ = hashlib.sha256(usedforsecurity=False)\n        h_.update(data[:len(data) // 2])\n        h_.update(data[len(data) // 2:])\n        return h_.hexdigest()")]),
+    ('C12', 'cache-header-written-in-one-write-with-the-payload', [R('lark/lark.py', "                        f.write(b'%s %d %s\\n' % (key, len(payload), sha256_digest(key + payload).encode('utf8')))\n                        f.write(payload)\n", "                        f.write(b'%s %d %s\\n' % (key, len(payload), sha256_digest(key + payload).encode('utf8')) + payload)\n")]),
+    ('C18', 'indentation-measured-by-a-loop', [R('lark/indenter.py', "        indent = indent_str.count(' ') + indent_str.count('\\t') * self.tab_len\n", "        indent = 0\n        for ch_ in indent_str:\n            indent += self.tab_len if ch_ == '\\t' else 1\n")]),
+    ('C11', 'saved-data-carries-a-format-tag', [R('lark/lark.py', "        pickle.dump({'data': data, 'memo': m}, f, protocol=pickle.HIGHEST_PROTOCOL)", "        pickle.dump({'data': data, 'memo': m, 'format': 2}, f, protocol=pickle.HIGHEST_PROTOCOL)")]),
     ('C05', 'symbol-node-priority-computed-with-a-loop', [R('lark/parsers/earley_forest.py', 'node.priority = max(child.priority for child in node.children)', 'node.priority = sorted(child.priority for child in node.children)[-1]')]),
 ]
 
